@@ -125,8 +125,16 @@ func runC06(r *Report, rng *rand.Rand, thorough bool) {
 		m := metas[id]
 		res := results[id]
 		replay := map[string]any{"framework": m.fw, "cell": m.cell, "scenario": sc, "corruption": m.kind}
+		if res != nil && m.fw == "stdhttp" && strings.Contains(res.Err, "bad wildcard name") {
+			r.Violate("stdhttp_path_parameter_name_not_a_go_identifier", "std-http "+m.cell.key()+": "+res.Err, replay)
+			continue
+		}
 		if res == nil || res.Err != "" {
-			r.Violate("scenario_error", id, replay)
+			e := ""
+			if res != nil {
+				e = res.Err
+			}
+			r.Violate("scenario_error", id+" "+trunc(e, 200), replay)
 			continue
 		}
 		r.Count(fmt.Sprintf("%s/%s/%s/%v", m.fw, m.cell.key(), m.kind, sc["req"]), m.kind != "missing" || m.cell.Required)
